@@ -87,6 +87,14 @@ class Collector(abc.ABC):
         """
         pass
 
+    def next_var_id(self) -> Optional[str]:
+        """
+        Get the id the next call of new_var_id will hand out, without handing it out.
+
+        :return: the id, or None if the collector cannot tell
+        """
+        return None
+
     def max_name_length(self, value) -> Optional[int]:
         """
         Get the most characters the names of the children of a dictionary can have.
@@ -225,7 +233,7 @@ def variable_to_string(variable_type, var_value):
             return wire_safe(str(var_value))
         except BaseException:
             # it is possible for str to fail if there is a custom __str__ function
-            return f'{type(var_value)}@{id(var_value)}'
+            return '%s@%s' % (type_name(type(var_value)), id(var_value))
 
 
 def process_variable(var_collector: Collector, node: NodeValue) -> VariableResponse:
@@ -258,13 +266,18 @@ def process_variable(var_collector: Collector, node: NodeValue) -> VariableRespo
     # create a variable for the lookup
     variable = Variable(type_name(variable_type), variable_value_str, identity_hash_id, [], truncated)
 
-    # if we do not have a cache_id - then create one. Only now that nothing of the application's is called any more:
-    # an id that is handed out must have its entry, or everything that refers to the value later refers to nothing
-    var_id = var_collector.new_var_id(identity_hash_id)
+    # if we do not have a cache_id - then create one. Only now that nothing of the application's is called any more, and
+    # the entry first: an id that is known must have its entry, or everything that refers to the value later refers to
+    # nothing. (An exception can arrive between any two statements: a signal handler that raises.)
+    var_id = var_collector.next_var_id()
+    if var_id is not None:
+        var_collector.append_variable(var_id, variable)
+        var_id = var_collector.new_var_id(identity_hash_id)
+    else:
+        var_id = var_collector.new_var_id(identity_hash_id)
+        var_collector.append_variable(var_id, variable)
     # crete the variable id to use
     variable_id = VariableId(var_id, node.name, modifiers, node.original_name)
-    # add to lookup
-    var_collector.append_variable(var_id, variable)
     # return result - and expand children
     return VariableResponse(variable_id, process_children=True)
 
@@ -461,7 +474,8 @@ def safe_str(value) -> str:
     try:
         return wire_safe(str(value))
     except BaseException:
-        return f'{type(value)}@{id(value)}'
+        # (the name of the type, not the type itself in the text: printing a class asks its metaclass, which can fail too)
+        return '%s@%s' % (type_name(type(value)), id(value))
 
 
 def process_list_breadth_first(var_collector: Collector, parent_node: ParentNode, value) -> List[Node]:
